@@ -71,12 +71,17 @@ func HarnessC08SignedInts() {
 	}
 	obj, back, rejected, panicked := c08FromTo(v)
 	verifrt.Assert(!panicked, "conversion-never-panics")
-	if panicked || rejected {
+	if panicked {
+		return
+	}
+	if obj != nil {
+		got, ok := c08IntContent(obj)
+		verifrt.Assert(ok && got == want, "script-value-equals-go-value")
+	}
+	if rejected {
 		return
 	}
 	verifrt.Reach("converted")
-	got, ok := c08IntContent(obj)
-	verifrt.Assert(ok && got == want, "script-value-equals-go-value")
 	verifrt.Assert(back == v, "converts-back-to-an-equal-go-value")
 }
 
@@ -103,13 +108,19 @@ func HarnessC08UnsignedInts() {
 	}
 	obj, back, rejected, panicked := c08FromTo(v)
 	verifrt.Assert(!panicked, "conversion-never-panics")
-	if panicked || rejected {
+	if panicked {
+		return
+	}
+	if obj != nil {
+		// whatever happens on the way back, the value the script sees is the Go value
+		got, ok := c08IntContent(obj)
+		// equal as mathematical numbers: non-negative and same magnitude
+		verifrt.Assert(ok && got >= 0 && uint64(got) == want, "script-value-equals-go-value")
+	}
+	if rejected {
 		return
 	}
 	verifrt.Reach("converted")
-	got, ok := c08IntContent(obj)
-	// equal as mathematical numbers: non-negative and same magnitude
-	verifrt.Assert(ok && got >= 0 && uint64(got) == want, "script-value-equals-go-value")
 	verifrt.Assert(back == v, "converts-back-to-an-equal-go-value")
 }
 
